@@ -105,8 +105,15 @@ def main():
             cls = "hang" if crash == "signal:14" else histbfs._crash_class(crash, stderr)   # signal 14 = the harness watchdog
             return "crash:%s:%s" % (cls, OPS[k] if 0 < k < len(OPS) else "?")
 
-        res = histbfs.bfs(c, exe, depth, deadline, env, wd, crash_sig=crash_sig, per_item_timeout=15.0)
-        res.violations, spurious = confirm_timeouts(exe, env, wd, res.violations)
+        # hangs are caught by the watchdog inside the harness, so the runner's own limit only has to cover a
+        # stalled machine; a run in which the very first workers were lost is repeated, not reported
+        for attempt in range(3):
+            histbfs.check_keys.clear()
+            res = histbfs.bfs(c, exe, depth, deadline, env, wd, crash_sig=crash_sig, per_item_timeout=120.0)
+            res.violations, spurious = confirm_timeouts(exe, env, wd, res.violations)
+            if not (spurious and res.depth_completed < 2 and not res.violations):
+                break
+            deadline = max(deadline, time.time() + 120.0)
         spurious_total += spurious
         for sig, detail, hist in res.violations:
             # readable form only for the first occurrence of a signature (describe() starts a process)
@@ -121,7 +128,8 @@ def main():
         for f in glob.glob(os.path.join(wd, "events.*")):
             events.update(l.strip() for l in open(f) if l.strip())
         reached = res.depth_completed >= depth or res.exhaustive
-        if reached and not [v for v in res.violations if not c.known.match(v[0])]:   # guards describe the target depth
+        # guards describe the target depth of a run without (unlisted) violations: violating transitions are not expanded
+        if reached and not [v for v in c.violations if not c.known.match(v["sig"])]:
             for g in GUARDS[name.split("-")[0]]:
                 c.vacuity(g in events, "run %s never reached situation %r" % (name, g))
         states += res.states
